@@ -201,6 +201,16 @@ func (m *Machine) intrinsic(fn *ssa.Function, args []Value, k func(Value)) bool 
 	if strings.HasPrefix(key, "reflect.") || strings.HasPrefix(key, "(reflect.") || strings.HasPrefix(key, "(*reflect.") {
 		return m.reflectIntrinsic(key, args, k)
 	}
+	if key == "unicode/utf8.DecodeRuneInString" {
+		str := args[0].(StrV)
+		if len(str.b) == 0 {
+			k(TupleV{m.tt.BV(32, 0xFFFD), m.tt.BV(64, 0)})
+			return true
+		}
+		r, size := m.decodeRune(str.b)
+		k(TupleV{r, m.tt.BV(64, uint64(size))})
+		return true
+	}
 	if m.world == 0 && strings.Contains(key, coPath) {
 		switch {
 		case key == coPath+".Yield":
